@@ -266,3 +266,58 @@ def declare_cli(e):
         s.ghost["stdout"] = Val(STR, txt if log is None else z3.Concat(log.t, txt))
         return [(s, Val(NONE, None))]
     e.func_models[click.echo] = m_echo
+
+
+def declare_paths(e):
+    """pathlib observers on the abstract Path sort, os.stat, VCS strategy answers (all uninterpreted / assumed)."""
+    reg = e.reg
+    P = reg.sort(TAbs("Path"))
+    reg.declare("abs", "Stat")
+
+    def attr(name, rty):
+        def model(eng, s, base, node):
+            f = eng.uf("path_" + name, [P], reg.sort(rty))
+            return [(s, Val(rty, f(base.t)))]
+        return model
+    e.attr_models[("Path", "name")] = attr("name", STR)
+    e.attr_models[("Path", "suffix")] = attr("suffix", STR)
+    e.attr_models[("Path", "stem")] = attr("stem", STR)
+    e.attr_models[("Path", "parent")] = attr("parent", TAbs("Path"))
+    e.attr_models[("Path", "parts")] = attr("parts", TSeq(STR))
+    e.attr_models[("Path", "parents")] = attr("parents", TSet(TAbs("Path")))
+
+    def m_resolve(eng, s, recv, name, args, kw, node):
+        f = eng.uf("path_resolve", [P], P)
+        return [(s, Val(TAbs("Path"), f(recv.t)))]
+    e.method_models[("Path", "resolve")] = m_resolve
+
+    def m_is_relative_to(eng, s, recv, name, args, kw, node):
+        f = eng.uf("path_is_relative_to", [P, P], z3.BoolSort())
+        return [(s, Val(BOOL, f(recv.t, eng.coerce(args[0], TAbs("Path")).t)))]
+    e.method_models[("Path", "is_relative_to")] = m_is_relative_to
+
+    def m_stat(eng, s, recv, name, args, kw, node):
+        fails = eng.uf("ghost_fs_stat_fails", [P], z3.BoolSort())(recv.t)
+        if eng.spec_mode:
+            f = eng.uf("fs_stat", [P], reg.sort(TAbs("Stat")))
+            return [(s, Val(TAbs("Stat"), f(recv.t)))]
+        bad, ok = eng.branch(s, fails, "stat")
+        if bad is not None:
+            eng.raise_(bad, OSError, where=node)
+        if ok is None:
+            return []
+        f = eng.uf("fs_stat", [P], reg.sort(TAbs("Stat")))
+        return [(ok, Val(TAbs("Stat"), f(recv.t)))]
+    e.method_models[("Path", "stat")] = m_stat
+
+    def a_size(eng, s, base, node):
+        f = eng.uf("stat_size", [reg.sort(TAbs("Stat"))], z3.IntSort())
+        return [(s, Val(INT, f(base.t)))]
+    e.attr_models[("Stat", "st_size")] = a_size
+
+    def m_vcs(eng, s, recv, name, args, kw, node):
+        if name not in ("is_ignored", "is_submodule"):
+            raise Unsupported(f"VCS.{name}")
+        f = eng.uf("vcs_" + name, [reg.sort(TAbs("VCS")), P], z3.BoolSort())
+        return [(s, Val(BOOL, f(recv.t, eng.coerce(args[0], TAbs("Path")).t)))]
+    e.method_models[("VCS", "*")] = m_vcs
